@@ -481,9 +481,94 @@ def r8_guess_from_tree(ctx, rule):
                {'attributes_written_after_init': sorted(written_outside_init)})
 
 
+def _upper_bounds(expr):
+    """Exclusive range stop -> list of (term_text, inclusive_offset); None if not linear in one atom."""
+    parts = expr.args if isinstance(expr, ast.Call) and call_name(expr) == 'min' and not expr.keywords else [expr]
+    shift = 0
+    if isinstance(expr, ast.BinOp) and isinstance(expr.op, (ast.Add, ast.Sub)) and isinstance(expr.left, ast.Call) \
+            and call_name(expr.left) == 'min' and isinstance(const(expr.right), int):
+        parts = expr.left.args
+        shift = const(expr.right) if isinstance(expr.op, ast.Add) else -const(expr.right)
+    out = []
+    for a in parts:
+        l = lin(a)
+        if l is None or len(l.t) != 1 or list(l.t.values())[0] != 1:
+            return None
+        out.append((list(l.t)[0], l.c + shift - 1))
+    return out
+
+
+def r9_level_cursor_domain(ctx, rule):
+    """Both cursor-advance functions walk the levels cur .. min(max_level, budget) INCLUSIVE.
+
+    Levels run 0..max_level inclusive (the loader creates max_level+1 lists, and rare n-grams sit at max_level), and a level
+    equal to the remaining budget is still affordable. A bound that stops one short (seed C10-f: range(cur,
+    min(budget + 1, max_level))) silently drops every string whose initial n-gram or length has the top level; a bound one
+    too far indexes a level that does not exist."""
+    specs = [(MC + '_increase_len_for_target', {'self.target_level'}), (MC + '_increase_ip_for_target', {'working_target'})]
+    n = 0
+    for q, budget_terms in specs:
+        fn = ctx.fn(q)
+        bounds = None
+        site = fn
+        for node in walk_local(fn):
+            if isinstance(node, ast.While) and isinstance(node.test, ast.Compare) and len(node.test.ops) == 1 and U(node.test.left) == 'level':
+                site = node
+                bounds = []
+                op = node.test.ops[0]
+                l = lin(node.test.comparators[0])
+                if l is None or len(l.t) != 1 or not isinstance(op, (ast.LtE, ast.Lt)):
+                    bounds = None
+                    break
+                bounds.append((list(l.t)[0], l.c + (0 if isinstance(op, ast.LtE) else -1)))
+                for st in walk_stmts(node.body):
+                    if isinstance(st, ast.If) and isinstance(st.test, ast.Compare) and len(st.test.ops) == 1 and U(st.test.left) == 'level' \
+                            and st.body and isinstance(st.body[-1], ast.Return) and const(st.body[-1].value) is False:
+                        op2 = st.test.ops[0]
+                        l2 = lin(st.test.comparators[0])
+                        if l2 is None or len(l2.t) != 1 or not isinstance(op2, (ast.Gt, ast.GtE)):
+                            bounds = None
+                            break
+                        bounds.append((list(l2.t)[0], l2.c + (0 if isinstance(op2, ast.Gt) else -1)))
+                break
+            if isinstance(node, ast.For) and U(node.target) == 'level' and isinstance(node.iter, ast.Call) and call_name(node.iter) == 'range' \
+                    and len(node.iter.args) == 2:
+                site = node
+                bounds = _upper_bounds(node.iter.args[1])
+                break
+        if bounds is None:
+            ctx.unk(rule, q, 'level loop bounds not recognised')
+            continue
+        n += 1
+        bd = {}
+        for t, off in bounds:
+            bd[t] = min(off, bd.get(t, off))
+        facts = {'inclusive_upper_bounds': ['level <= %s%+d' % (t, o) if o else 'level <= %s' % t for t, o in sorted(bd.items())]}
+        ok = True
+        if bd.get('self.max_level') != 0:
+            ok = False
+            ctx.bad(rule, q, 'levels visited: %s' % facts['inclusive_upper_bounds'],
+                    'the cursor must reach level max_level itself (inclusive) and no further: the model has lists for levels '
+                    '0..max_level and rare lengths / initial n-grams sit at max_level; stopping one short drops every string that '
+                    'uses them', facts, site)
+        bt = [t for t in bd if t in budget_terms]
+        if ok and (not bt or bd[bt[0]] != 0):
+            ok = False
+            ctx.bad(rule, q, 'levels visited: %s' % facts['inclusive_upper_bounds'],
+                    'a level equal to the remaining budget is affordable (the rest of the string may cost 0): the cursor must '
+                    'visit levels up to the budget inclusive, and none above it', facts, site)
+        extra = [t for t in bd if t != 'self.max_level' and t not in budget_terms]
+        if ok and extra:
+            ok = False
+            ctx.bad(rule, q, 'additional level bound %s' % extra, 'only max_level and the remaining budget bound the level cursor', facts, site)
+        if ok:
+            ctx.ok(rule, q, 'levels visited: cur .. min(max_level, budget) inclusive', facts)
+    ctx.floor(rule, MCF, n, 2, 'level cursor loops')
+
+
 def rules(tier):
     return [('C10.R1', r1_copy_discipline), ('C10.R2', r2_memo_key), ('C10.R3', r3_sibling_constructions), ('C10.R4', r4_exact_last_transition),
-            ('C10.R5', r5_sibling_cursor_advance), ('C10.R6', r6_model_immutable), ('C10.R7', r7_prune_discipline), ('C10.R8', r8_guess_from_tree)]
+            ('C10.R5', r5_sibling_cursor_advance), ('C10.R6', r6_model_immutable), ('C10.R7', r7_prune_discipline), ('C10.R8', r8_guess_from_tree), ('C10.R9', r9_level_cursor_domain)]
 
 
 META = {
